@@ -53,6 +53,9 @@ pub struct Ctl {
     pub grants: VecDeque<u32>,
     /// pids for which the next op must fail (gate-driven fault injection)
     pub fail_next: HashSet<u32>,
+    /// when set, the COMPLETION of every gated operation waits for a grant of its own: the operation has
+    /// taken effect in (or read from) the database but its result has not reached the caller yet
+    pub gate_post: bool,
 }
 
 #[derive(Clone)]
@@ -181,6 +184,39 @@ impl HookDb {
     }
 }
 
+impl HookDb {
+    /// completion point of a gated operation (see Ctl::gate_post)
+    async fn leave(&self) {
+        let pid = current_pid();
+        let gated = {
+            let c = self.ctl.lock().unwrap();
+            c.gate_enabled && c.gate_post && pid != 0
+        };
+        if !gated {
+            return;
+        }
+        {
+            let mut c = self.ctl.lock().unwrap();
+            c.waiting.insert(pid, ("complete", String::new()));
+        }
+        loop {
+            {
+                let mut c = self.ctl.lock().unwrap();
+                if c.grants.front() == Some(&pid) {
+                    c.grants.pop_front();
+                    c.waiting.remove(&pid);
+                    break;
+                }
+                if !c.gate_enabled {
+                    c.waiting.remove(&pid);
+                    break;
+                }
+            }
+            tokio::task::yield_now().await;
+        }
+    }
+}
+
 fn rec_desc(r: &DbRecord) -> String {
     match r {
         DbRecord::Azks(a) => format!("azks:{}", a.latest_epoch),
@@ -198,7 +234,9 @@ fn rec_desc(r: &DbRecord) -> String {
 impl Database for HookDb {
     async fn set(&self, record: DbRecord) -> Result<(), StorageError> {
         self.enter("set", rec_desc(&record), true).await?;
-        self.inner.set(record).await
+        let r = self.inner.set(record).await;
+        self.leave().await;
+        r
     }
 
     async fn batch_set(&self, records: Vec<DbRecord>, state: DbSetState) -> Result<(), StorageError> {
@@ -216,24 +254,32 @@ impl Database for HookDb {
                 c.captured.push(records.clone());
             }
         }
-        self.inner.batch_set(records, state).await
+        let r = self.inner.batch_set(records, state).await;
+        self.leave().await;
+        r
     }
 
     async fn get<St: Storable>(&self, id: &St::StorageKey) -> Result<DbRecord, StorageError> {
         self.enter("get", format!("{:?}:{:?}", St::data_type(), id), false)
             .await?;
-        self.inner.get::<St>(id).await
+        let r = self.inner.get::<St>(id).await;
+        self.leave().await;
+        r
     }
 
     async fn batch_get<St: Storable>(&self, ids: &[St::StorageKey]) -> Result<Vec<DbRecord>, StorageError> {
         self.enter("batch_get", format!("{:?}x{}", St::data_type(), ids.len()), false)
             .await?;
-        self.inner.batch_get::<St>(ids).await
+        let r = self.inner.batch_get::<St>(ids).await;
+        self.leave().await;
+        r
     }
 
     async fn get_user_data(&self, username: &AkdLabel) -> Result<KeyData, StorageError> {
         self.enter("get_user_data", String::new(), false).await?;
-        self.inner.get_user_data(username).await
+        let r = self.inner.get_user_data(username).await;
+        self.leave().await;
+        r
     }
 
     async fn get_user_state(
@@ -242,7 +288,9 @@ impl Database for HookDb {
         flag: ValueStateRetrievalFlag,
     ) -> Result<ValueState, StorageError> {
         self.enter("get_user_state", format!("{flag:?}"), false).await?;
-        self.inner.get_user_state(username, flag).await
+        let r = self.inner.get_user_state(username, flag).await;
+        self.leave().await;
+        r
     }
 
     async fn get_user_state_versions(
@@ -252,6 +300,8 @@ impl Database for HookDb {
     ) -> Result<HashMap<AkdLabel, (u64, AkdValue)>, StorageError> {
         self.enter("get_user_state_versions", format!("{flag:?}"), false)
             .await?;
-        self.inner.get_user_state_versions(usernames, flag).await
+        let r = self.inner.get_user_state_versions(usernames, flag).await;
+        self.leave().await;
+        r
     }
 }
